@@ -677,7 +677,7 @@ func init() {
 	})
 
 	register(&Rule{
-		ID: "C08.R3", Props: []string{"C08", "C09", "C10"}, Min: 3,
+		ID: "C08.R3", Props: []string{"C08", "C09", "C10", "C07"}, Min: 3,
 		Doc: "children never write to the parent: New/new/Load build the child's stack from Copy() (or a fresh stack), never from the parent's own stack field, and store nothing into the receiver; Fill installs a map made in the call as the root scope, never the caller's map",
 		Run: func(p *Prog, c *Ctx) {
 			for _, name := range []string{"(*vuego.template).new", "(*vuego.template).Load", "(*vuego.template).New"} {
